@@ -149,6 +149,7 @@ type ContractFile struct {
 	DefaultStrings string
 	Errors     []string
 	Globals    []*GlobalFact
+	Immutable  []string    // T.f: fields assigned only while their object is being constructed
 	Preds      []*SpecFunc // heap-reading predicates, expanded in place (macros over the current state)
 }
 
@@ -160,7 +161,7 @@ type GlobalFact struct {
 	Pkg    string
 }
 
-var topKeywords = map[string]bool{"pred": true, "global": true, "spec": true, "ghost": true, "invariant": true, "guarded": true, "lemma": true, "axiom": true, "extern": true, "interface": true, "func": true, "default": true}
+var topKeywords = map[string]bool{"immutable": true, "pred": true, "global": true, "spec": true, "ghost": true, "invariant": true, "guarded": true, "lemma": true, "axiom": true, "extern": true, "interface": true, "func": true, "default": true}
 var subKeywords = map[string]bool{"after": true, "assumes": true, "props": true, "model": true, "strings": true, "bytes": true, "requires": true, "ensures": true, "panics": true, "assigns": true, "pure": true, "loop": true, "at": true, "flag": true, "decreases": true, "use": true, "known": true, "hyp": true, "protects": true, "clause": true}
 
 type rawLine struct {
@@ -234,6 +235,8 @@ func ParseContractLines(pkg, path string, lines []rawLine) *ContractFile {
 			} else {
 				errf(d.loc, "bad default directive")
 			}
+		case "immutable":
+			cf.Immutable = append(cf.Immutable, splitList(d.text)...)
 		case "pred":
 			// pred name(params) = expr     (boolean; may read fields; expanded at each use in the state of the use)
 			t := strings.TrimSpace(d.text)
